@@ -514,22 +514,25 @@ def cursorWrite (p chunk : Bytes) (failed : Bool) : M Bool := do
   modify fun w => { w with fs := Fs.appendFile w.fs p chunk }
   return false
 
-def writeLayerFile (l : Layer) : M Unit := do
-  let filename := layerconfigPath l
-  let tmp := filename ++ tmpSuffix
+/-- NewTextOutputFileCursor (not pretending): fault point, then open(O_TRUNC|O_CREATE) -/
+def cursorOpen (p : Bytes) : M Unit := do
   let w ← getW
-  if w.pretend then
-    -- pretending cursor; Rename is gated too
-    return
-  -- NewTextOutputFileCursor: fault point, open(O_TRUNC|O_CREATE)
   let n := w.nops + 1
   setW { w with nops := n }
   if w.crashAt == some n then fail "crash"
   if w.faultAt == some n then fail "fault"
-  record (.fopen tmp)
-  match Fs.openWrite w.fs tmp true with
+  record (.fopen p)
+  let w ← getW
+  match Fs.openWrite w.fs p true with
   | .error e => fail ("os:" ++ e)
-  | .ok fs' => modify fun w => { w with fs := fs' }
+  | .ok fs' => setW { w with fs := fs' }
+
+def writeLayerFile (l : Layer) : M Unit := do
+  let filename := layerconfigPath l
+  let tmp := filename ++ tmpSuffix
+  -- pretending cursor: no file is touched and the final Rename is gated too
+  if (← getW).pretend then return
+  cursorOpen tmp
   let failed ← (writeChunks (toLayerFile l)).foldlM (fun failed chunk => cursorWrite tmp chunk failed) false
   if failed then fail "fault"
   fsRename tmp filename
@@ -590,8 +593,8 @@ def autoExportPaths (cfg : Config) (l : Layer) : List (Bytes × Bytes) :=
     (pathJoin [cfg.exportdirs, cfg.exportGenerated, l.name], pathJoin [l.layerPath, cfg.generated]) ]
 
 def removeLayerExportLinks (cfg : Config) (l : Layer) : M Unit :=
-  (autoExportPaths cfg l).forM fun (mnt, _) => do
-    if !(← fExists mnt) then return
+  for (mnt, _) in autoExportPaths cfg l do
+    if !(← fExists mnt) then continue
     if !(← fIsSymlink mnt) then fail "notsymlink"
     fsRemove mnt
 
@@ -659,7 +662,7 @@ def makedirs (cfg : Config) (d : Defs) (name : Bytes) : M Defs := do
     let fs := (← getW).fs
     let need := [buildPath cfg l] ++ (if l.base.length > 0 then [workPath cfg l, upperPath cfg l] else [])
     let need := need.filter (fun p => !Fs.isDir fs p)
-    need.forM fsMkdir
+    for p in need do fsMkdir p
     let l' ← liftRes (findLayerstate cfg (← getW).fs d l)
     pure (setLayer d l')
   else pure d
@@ -679,8 +682,8 @@ def makeSymlinkInDirectory (source target : Bytes) : M Unit := do
 
 def makeExportSymlinks (cfg : Config) (l : Layer) : M Unit := do
   let exports ← liftRes (expandConfigExports cfg l)
-  exports.forM fun e => makeSymlinkInDirectory e.source e.mount
-  (autoExportPaths cfg l).forM fun (mnt, src) => do
+  for e in exports do makeSymlinkInDirectory e.source e.mount
+  for (mnt, src) in autoExportPaths cfg l do
     if ← fExists src then makeSymlinkInDirectory src mnt
 
 def mountOne (cfg : Config) (d : Defs) (name : Bytes) : M Defs := do
@@ -694,7 +697,7 @@ def mountOne (cfg : Config) (d : Defs) (name : Bytes) : M Defs := do
         (b!"lowerdir=" ++ buildPath cfg bl ++ b!",upperdir=" ++ upperPath cfg l
           ++ b!",workdir=" ++ workPath cfg l)
   let expanded ← liftRes (expandConfigMounts cfg d l)
-  expanded.forM fun m => do
+  for m in expanded do
     if (getMount d.mounts m.mount).isNone then
       if !(← fExists m.source) then
         if inAnyLayerDirectory cfg (m.source.length + 1) m.source then fsMkdir m.source
@@ -724,7 +727,7 @@ def unmountLayer (cfg : Config) (d : Defs) (name : Bytes) : M (UStatus × Defs) 
   let l ← getL d name
   if isBusy l false then return (.busy, d)
   if l.mounts.length == 0 then return (.notMounted, d)
-  l.mounts.reverse.forM fun m => fsUnmount m.mountpoint
+  for m in l.mounts.reverse do fsUnmount m.mountpoint
   let d ← refreshMountInfo cfg d
   let l ← getL d name
   let l' ← liftRes (findLayerstate cfg (← getW).fs d l)
@@ -748,7 +751,7 @@ def unmountCmd (cfg : Config) (d : Defs) (name : Bytes) (all : Bool) : M Defs :=
     pure d
 
 def shake (cfg : Config) (d : Defs) : M Defs := do
-  d.order.forM fun n => do
+  for n in d.order do
     let l ← getL d n
     if l.base.length > 0 && l.state ≥ S_mounted then
       fsMount [] (buildPath cfg l) b!"remount" []
@@ -770,11 +773,11 @@ def initBase (cfg : Config) : M Unit := do
     ++ dirs.filter (fun p => !Fs.isDir fs p)
   let nonBase := dirs.any fun p => Fs.isDir fs p && !isDescendant cfg.basepath p
   if missing.length > 0 && nonBase then fail "manualsetup"
-  missing.forM fsMkdir
+  for p in missing do fsMkdir p
   let files := [ (pathJoin [cfg.basepath, skeletonFile], true), (pathJoin [cfg.exportdirs, b!"index.html"], false) ]
   let haveF := files.filter (fun f => Fs.isFile fs f.1)
   let needF := files.filter (fun f => !Fs.isFile fs f.1)
-  needF.forM fun f => fsWriteTextFile f.1 (if f.2 then b!"#skel" else b!"#html")
+  for f in needF do fsWriteTextFile f.1 (if f.2 then b!"#skel" else b!"#html")
   if haveF.length > 0 then fail "nooverwrite"
   if missing.length == 0 && needF.length == 0 then fail "nothingtodo"
 
